@@ -122,6 +122,99 @@ pub struct Case {
     /// afterwards the plainly allowlisted address is an unknown destination
     #[serde(default)]
     pub allow_edit: u8,
+    /// wire group: the transaction (outputs, channels, fee, policy of this case; inputs of the
+    /// WireGen) is requested as a SignWithdrawal message through the protocol handler
+    #[serde(default)]
+    pub wire: Option<WireGen>,
+}
+
+/// Input of a wire-group transaction, as CLN's / LDK's hsmd client describes it.
+#[derive(Clone, Debug, Serialize, Deserialize, PartialEq, Eq, Hash)]
+pub enum WInKind {
+    /// wallet inputs: a utxo entry with the key index
+    WalletP2wpkh,
+    /// ... additionally is_p2sh and the redeem script in the PSBT input
+    WalletP2sh,
+    WalletP2tr,
+    /// the to-remote output of the counterparty's commitment of a closed channel: utxo entry with
+    /// close_info without commitment point (p2wpkh, or p2wsh with anchors)
+    CloseToRemote { anchors: bool },
+    /// the delayed to-local output of the holder's commitment: close_info with the commitment point
+    CloseDelayed { anchors: bool },
+    /// somebody else's inputs (no utxo entry, never signed): native segwit / legacy
+    ForeignP2wpkh,
+    ForeignP2pkh,
+}
+
+/// Which previous-output data the PSBT input carries.
+#[derive(Clone, Debug, Serialize, Deserialize, PartialEq, Eq, Hash)]
+pub enum UtxoData {
+    WitnessOnly,
+    NonWitnessOnly,
+    Both,
+}
+
+#[derive(Clone, Debug, Serialize, Deserialize, PartialEq, Eq, Hash)]
+pub struct WInGen {
+    pub kind: WInKind,
+    pub data: UtxoData,
+    pub val: ValSel,
+}
+
+#[derive(Clone, Debug, Serialize, Deserialize, PartialEq, Eq, Hash)]
+pub struct WireGen {
+    /// protocol version 4 + pver % 3
+    pub pver: u8,
+    /// the version is capped by the node's offer instead of the signer's maximum
+    pub node_cap: bool,
+    pub inputs: Vec<WInGen>,
+    /// bit i set: the PSBT output i carries no derivation (a wallet destination then is unknown)
+    pub withhold_path: u8,
+}
+
+fn val_strat() -> impl Strategy<Value = ValSel> {
+    prop_oneof![
+        // large enough to fund the channels of the case most of the time
+        10 => (100_000u32..30_000_000).prop_map(ValSel::Small),
+        2 => (1u8..4, prop_oneof![Just(0u32), Just(1000u32), any::<u32>()]).prop_map(|(k, r)| ValSel::Pow32Mult { k, r }),
+        1 => Just(ValSel::Huge), 1 => Just(ValSel::NearMax),
+    ]
+}
+
+fn val_of(v: &ValSel) -> u64 {
+    match v {
+        ValSel::Small(v) => *v as u64,
+        ValSel::Pow32Mult { k, r } => ((*k as u64) << 32) + *r as u64,
+        ValSel::Huge => 1 << 50,
+        ValSel::NearMax => u64::MAX / 2 + 5,
+    }
+}
+
+fn wire_strat() -> impl Strategy<Value = WireGen> {
+    let mixed = (
+        prop_oneof![
+            6 => Just(WInKind::WalletP2wpkh), 2 => Just(WInKind::WalletP2sh), 3 => Just(WInKind::WalletP2tr),
+            2 => any::<bool>().prop_map(|anchors| WInKind::CloseToRemote { anchors }), 1 => any::<bool>().prop_map(|anchors| WInKind::CloseDelayed { anchors }),
+            1 => Just(WInKind::ForeignP2wpkh), 1 => Just(WInKind::ForeignP2pkh),
+        ],
+        prop_oneof![2 => Just(UtxoData::WitnessOnly), 3 => Just(UtxoData::NonWitnessOnly), 5 => Just(UtxoData::Both)],
+        val_strat(),
+    )
+        .prop_map(|(kind, data, val)| WInGen { kind, data, val });
+    // inputs a channel can be funded from: native segwit, described by the previous transaction
+    let funding_grade = (
+        prop_oneof![
+            6 => Just(WInKind::WalletP2wpkh), 3 => Just(WInKind::WalletP2tr),
+            2 => any::<bool>().prop_map(|anchors| WInKind::CloseToRemote { anchors }), 1 => any::<bool>().prop_map(|anchors| WInKind::CloseDelayed { anchors }),
+            1 => Just(WInKind::ForeignP2wpkh),
+        ],
+        prop_oneof![2 => Just(UtxoData::NonWitnessOnly), 3 => Just(UtxoData::Both)],
+        val_strat(),
+    )
+        .prop_map(|(kind, data, val)| WInGen { kind, data, val });
+    let inputs = prop_oneof![3 => proptest::collection::vec(mixed, 1..4), 2 => proptest::collection::vec(funding_grade, 1..4)];
+    (0u8..3, any::<bool>(), inputs, prop_oneof![3 => Just(0u8), 1 => any::<u8>()])
+        .prop_map(|(pver, node_cap, inputs, withhold_path)| WireGen { pver, node_cap, inputs, withhold_path })
 }
 
 fn in_strat() -> impl Strategy<Value = InGen> {
@@ -161,6 +254,604 @@ pub struct C08;
 
 fn path_of(idx: u32) -> DerivationPath {
     vec![ChildNumber::from_normal_idx(idx).unwrap()].into()
+}
+
+
+// ---------------------------------------------------------------------------------------------
+// wire group
+
+/// Negative approver (the explicit approval of unknown destinations is outside the oracle) that
+/// records which outputs it was asked about.
+struct RecordingApprover {
+    asked: std::sync::Arc<std::sync::Mutex<Vec<Vec<usize>>>>,
+}
+
+impl lightning_signer::SendSync for RecordingApprover {}
+
+impl Approve for RecordingApprover {
+    fn approve_invoice(&self, _invoice: &lightning_signer::invoice::Invoice) -> bool {
+        false
+    }
+    fn approve_keysend(&self, _payment_hash: lightning_signer::lightning::types::payment::PaymentHash, _amount_msat: u64) -> bool {
+        false
+    }
+    fn approve_onchain(&self, _tx: &Transaction, _prev_outs: &[TxOut], unknown_indices: &[usize]) -> bool {
+        self.asked.lock().unwrap().push(unknown_indices.to_vec());
+        false
+    }
+}
+
+/// What the witness of a signed input has to look like.
+enum Expect {
+    /// not ours: no signature expected
+    Foreign,
+    /// [sig, pubkey] over the p2wpkh script of the key (also when wrapped in p2sh)
+    Wpkh { pk: PublicKey, nested: bool },
+    /// [sig] by the tweaked key
+    Tr { internal: PublicKey },
+    /// [sig, suffix...] over the last element of the suffix
+    Wsh { pk: PublicKey, suffix: Vec<Vec<u8>> },
+}
+
+fn verify_wire_input(
+    secp: &bitcoin::secp256k1::Secp256k1<bitcoin::secp256k1::All>,
+    tx: &Transaction,
+    prev_outs: &[TxOut],
+    i: usize,
+    exp: &Expect,
+    inp: &bitcoin::psbt::Input,
+    net: Network,
+) -> Result<(), &'static str> {
+    use bitcoin::key::TapTweak;
+    use bitcoin::secp256k1::Message as SMsg;
+    use bitcoin::sighash::{EcdsaSighashType, Prevouts, SighashCache, TapSighashType};
+    let value = prev_outs[i].value;
+    let wit: Vec<Vec<u8>> = match (&inp.final_script_witness, exp) {
+        (_, Expect::Foreign) => return Ok(()),
+        (None, _) => return Err("input-not-signed"),
+        (Some(w), _) => w.to_vec(),
+    };
+    if wit.is_empty() {
+        return Err("input-not-signed");
+    }
+    let mut cache = SighashCache::new(tx);
+    let ecdsa_ok = |digest: [u8; 32], sig: &[u8], pk: &PublicKey| -> bool {
+        match bitcoin::ecdsa::Signature::from_slice(sig) {
+            Ok(s) => s.sighash_type == EcdsaSighashType::All && secp.verify_ecdsa(&SMsg::from_digest(digest), &s.signature, pk).is_ok(),
+            Err(_) => false,
+        }
+    };
+    match exp {
+        Expect::Foreign => Ok(()),
+        Expect::Wpkh { pk, nested } => {
+            if wit.len() != 2 || wit[1] != pk.serialize().to_vec() {
+                return Err("witness-stack-wrong");
+            }
+            let code = Address::p2wpkh(&CompressedPublicKey(*pk), net).script_pubkey();
+            let h = cache.p2wpkh_signature_hash(i, &code, value, EcdsaSighashType::All).map_err(|_| "sighash")?;
+            if !ecdsa_ok(h.to_byte_array(), &wit[0], pk) {
+                return Err("signature-does-not-verify");
+            }
+            if *nested {
+                let mut pb = bitcoin::script::PushBytesBuf::new();
+                pb.extend_from_slice(code.as_bytes()).map_err(|_| "push")?;
+                let want = bitcoin::script::Builder::new().push_slice(&pb).into_script();
+                if inp.final_script_sig.as_ref() != Some(&want) {
+                    return Err("p2sh-script-sig-wrong");
+                }
+            }
+            Ok(())
+        }
+        Expect::Tr { internal } => {
+            if wit.len() != 1 {
+                return Err("witness-stack-wrong");
+            }
+            let (tweaked, _) = UntweakedPublicKey::from(*internal).tap_tweak(secp, None);
+            let h = cache.taproot_key_spend_signature_hash(i, &Prevouts::All(prev_outs), TapSighashType::Default).map_err(|_| "sighash")?;
+            let sig = bitcoin::taproot::Signature::from_slice(&wit[0]).map_err(|_| "signature-does-not-verify")?;
+            if sig.sighash_type != TapSighashType::Default || secp.verify_schnorr(&sig.signature, &SMsg::from_digest(h.to_byte_array()), &tweaked.to_inner()).is_err() {
+                return Err("signature-does-not-verify");
+            }
+            Ok(())
+        }
+        Expect::Wsh { pk, suffix } => {
+            if wit.len() != 1 + suffix.len() || wit[1..] != suffix[..] {
+                return Err("witness-stack-wrong");
+            }
+            let code = ScriptBuf::from(suffix[suffix.len() - 1].clone());
+            let h = cache.p2wsh_signature_hash(i, &code, value, EcdsaSighashType::All).map_err(|_| "sighash")?;
+            if !ecdsa_ok(h.to_byte_array(), &wit[0], pk) {
+                return Err("signature-does-not-verify");
+            }
+            Ok(())
+        }
+    }
+}
+
+/// first policy tag of a refusal message, or its shortened text
+fn refusal_reason(msg: &str) -> String {
+    if msg.contains("unapproved destination") {
+        return "unapproved-destination".into();
+    }
+    if let Some(p) = msg.find("policy-") {
+        return msg[p..].chars().take_while(|c| c.is_ascii_alphanumeric() || *c == '-').collect();
+    }
+    short_err(msg)
+}
+
+impl C08 {
+    /// Wire group: the labelled transaction is requested as SignWithdrawal (utxos + streamed
+    /// PSBT) from a signer built like vlsd's; the ground truth is the same as at API level.
+    fn run_wire(&self, case: &Case, wg: &WireGen, st: &mut CaseStats, ctx: &Ctx) -> Result<(), Violation> {
+        use crate::props::proto::{validate_msg, Negotiation, ProtoWorld, To};
+        use bitcoin::bip32::{Fingerprint, KeySource};
+        use bitcoin::psbt::Psbt;
+        use bitcoin::secp256k1::XOnlyPublicKey;
+        use lightning_signer::lightning::ln::chan_utils::{get_revokeable_redeemscript, get_to_countersignatory_with_anchors_redeemscript};
+        use lightning_signer::prelude::Arc as PArc;
+        use vls_protocol::model::{self, CloseInfo, PubKey, Utxo};
+        use vls_protocol::msgs::{self, Message};
+        use vls_protocol::psbt::StreamedPSBT;
+        use vls_protocol::serde_bolt::{Array, Octets, WithSize};
+        use vls_protocol_signer::handler::InitHandler;
+
+        let net = Network::Testnet;
+        let mut cfg = WorldCfg::default_testnet();
+        cfg.policy.max_feerate_per_kw = case.max_feerate;
+        cfg.policy.fee_velocity_control = match case.fee_velocity_sat {
+            Some(l) => VelocityControlSpec { limit_msat: l as u64 * 1000, interval_type: VelocityControlIntervalType::Daily },
+            None => VelocityControlSpec::UNLIMITED,
+        };
+        let pver = 4 + (wg.pver % 3) as u32;
+        let mut pw = ProtoWorld::new(cfg.clone(), pver, if wg.node_cap { Negotiation::NodeCap } else { Negotiation::SignerCap });
+        let secp = pw.secp.clone();
+        // The same node behind a root handler with a declining approver: what HandlerBuilder::build
+        // does with `.approver(..)` (InitHandler::new over the node), then the HsmdInit handshake.
+        let asked = std::sync::Arc::new(std::sync::Mutex::new(Vec::<Vec<usize>>::new()));
+        {
+            let (signer_max, node_max) = if wg.node_cap { (msgs::DEFAULT_MAX_PROTOCOL_VERSION, pver) } else { (pver, msgs::DEFAULT_MAX_PROTOCOL_VERSION) };
+            let mut init = InitHandler::new(0, pw.node().clone(), PArc::new(RecordingApprover { asked: asked.clone() }), signer_max);
+            let m = Message::HsmdInit(msgs::HsmdInit {
+                key_version: model::Bip32KeyVersion { pubkey_version: 0x0488b21e, privkey_version: 0x0488ade4 },
+                chain_params: bitcoin::blockdata::constants::genesis_block(net).block_hash(),
+                encryption_key: None,
+                dev_privkey: None,
+                dev_bip32_seed: None,
+                dev_channel_secrets: None,
+                dev_channel_secrets_shaseed: None,
+                hsm_wire_min_version: msgs::MIN_PROTOCOL_VERSION,
+                hsm_wire_max_version: node_max,
+            });
+            let m = msgs::from_vec(m.inner().as_vec()).expect("init message survives the wire");
+            let (done, reply) = init.handle(m).expect("handshake");
+            assert!(done);
+            let reply = reply.expect("handshake reply");
+            let r = reply.as_any().downcast_ref::<msgs::HsmdInitReplyV4>().expect("HsmdInitReplyV4");
+            assert_eq!(r.hsm_version, pver, "negotiated protocol version");
+            pw.root = init.into();
+        }
+        st.class(format!("wire:v{}", pver));
+
+        let wxpub = pw.node().get_account_extended_pubkey();
+        let fp: Fingerprint = wxpub.fingerprint();
+        let wpk = |idx: u32| -> PublicKey { wxpub.derive_pub(&secp, &path_of(idx)).unwrap().public_key };
+        let wallet_scripts = |idx: u32| -> [ScriptBuf; 3] {
+            let pk = CompressedPublicKey(wpk(idx));
+            [Address::p2wpkh(&pk, net).script_pubkey(), Address::p2shwpkh(&pk, net).script_pubkey(), Address::p2tr(&secp, UntweakedPublicKey::from(pk.0), None, net).script_pubkey()]
+        };
+        let allow_pk = CompressedPublicKey(PublicKey::from_secret_key(&secp, &SecretKey::from_slice(&[9u8; 32]).unwrap()));
+        let allow_addr = Address::p2wpkh(&allow_pk, net);
+        let axpub = Xpub::from_priv(&secp, &Xpriv::new_master(net, &[7u8; 32]).unwrap());
+        let mut allow_entries = vec![format!("address:{}", allow_addr), format!("xpub:{}", axpub)];
+        for idx in 90u32..96 {
+            allow_entries.push(format!("address:{}", Address::p2wpkh(&CompressedPublicKey(wpk(idx)), net)));
+        }
+        pw.node().add_allowlist(&allow_entries).expect("allowlist");
+        let foreign_pk = |b: u8| CompressedPublicKey(PublicKey::from_secret_key(&secp, &SecretKey::from_slice(&[b; 32]).unwrap()));
+        let foreign = |i: u8| Address::p2wpkh(&foreign_pk(40 + i), net).script_pubkey();
+
+        // --- inputs -------------------------------------------------------------------------
+        struct InFact {
+            prev_tx: Transaction,
+            vout: u32,
+            utxo: Option<Utxo>,
+            redeem_script: Option<ScriptBuf>,
+            expect: Expect,
+            truly_segwit: bool,
+            sequence: Sequence,
+        }
+        let mut ins: Vec<InFact> = vec![];
+        let mut weight_extra: u128 = 0;
+        let mut sum_in: u128 = 0;
+        for (i, g) in wg.inputs.iter().enumerate() {
+            let v = val_of(&g.val);
+            let keyindex = 20 + i as u32;
+            let mut close: Option<CloseInfo> = None;
+            let mut sequence = Sequence::MAX;
+            let mut wit_len: u128 = 33;
+            let (spk, expect, truly_segwit, redeem_script): (ScriptBuf, Expect, bool, Option<ScriptBuf>) = match &g.kind {
+                WInKind::WalletP2wpkh => (wallet_scripts(keyindex)[0].clone(), Expect::Wpkh { pk: wpk(keyindex), nested: false }, true, None),
+                WInKind::WalletP2sh => (wallet_scripts(keyindex)[1].clone(), Expect::Wpkh { pk: wpk(keyindex), nested: true }, true, Some(wallet_scripts(keyindex)[0].clone())),
+                WInKind::WalletP2tr => (wallet_scripts(keyindex)[2].clone(), Expect::Tr { internal: wpk(keyindex) }, true, None),
+                WInKind::ForeignP2wpkh => (Address::p2wpkh(&foreign_pk(0x60 + i as u8), net).script_pubkey(), Expect::Foreign, true, None),
+                WInKind::ForeignP2pkh => (Address::p2pkh(&foreign_pk(0x60 + i as u8), net).script_pubkey(), Expect::Foreign, false, None),
+                WInKind::CloseToRemote { anchors } | WInKind::CloseDelayed { anchors } => {
+                    // a channel of this node that was closed unilaterally
+                    let mut spec = ChanSpec::basic(50 + i as u64);
+                    spec.peer = 2;
+                    spec.anchors = *anchors;
+                    let ci = match pw.new_stub(&spec) {
+                        Out::Ok(ci) => ci,
+                        _ => return Ok(()),
+                    };
+                    if !pw.setup_chan(ci).is_ok() {
+                        st.class("wire:closed-channel-setup-refused");
+                        return Ok(());
+                    }
+                    let ch = &pw.chans[ci];
+                    let peer = PubKey(peer_id(spec.peer));
+                    if matches!(g.kind, WInKind::CloseToRemote { .. }) {
+                        let pay = ch.holder_pubkeys.payment_point;
+                        close = Some(CloseInfo { channel_id: spec.dbid, peer_id: peer, commitment_point: None, is_anchors: *anchors, csv: if *anchors { 1 } else { 0 } });
+                        if *anchors {
+                            let rs = get_to_countersignatory_with_anchors_redeemscript(&pay);
+                            sequence = Sequence(1);
+                            wit_len = 1 + rs.len() as u128;
+                            (rs.to_p2wsh(), Expect::Wsh { pk: pay, suffix: vec![rs.to_bytes()] }, true, None)
+                        } else {
+                            wit_len = 1 + 33;
+                            (Address::p2wpkh(&CompressedPublicKey(pay), net).script_pubkey(), Expect::Wpkh { pk: pay, nested: false }, true, None)
+                        }
+                    } else {
+                        let point = ch.holder_point(&secp, 3);
+                        let keys = ch.holder_txkeys(&secp, &point);
+                        let delay = ch.setup.counterparty_selected_contest_delay;
+                        let rs = get_revokeable_redeemscript(&keys.revocation_key, delay, &keys.broadcaster_delayed_payment_key);
+                        close = Some(CloseInfo { channel_id: spec.dbid, peer_id: peer, commitment_point: Some(PubKey(point.serialize())), is_anchors: *anchors, csv: delay as u32 });
+                        sequence = Sequence(delay as u32);
+                        wit_len = 1 + 1 + rs.len() as u128;
+                        (rs.to_p2wsh(), Expect::Wsh { pk: keys.broadcaster_delayed_payment_key.to_public_key(), suffix: vec![vec![], rs.to_bytes()] }, true, None)
+                    }
+                }
+            };
+            // every input here has a recognised script type: the documented weight lower bound
+            // counts 77 + the known witness suffix for it
+            weight_extra += 2 + 1 + 1 + 72 + 1 + wit_len;
+            // the full previous transaction (the spent output at index i % 2)
+            let vout = (i % 2) as u32;
+            let mut ptxid = [0u8; 32];
+            ptxid[0] = i as u8;
+            ptxid[2] = 0xc8;
+            let mut pouts = vec![];
+            if vout == 1 {
+                pouts.push(TxOut { value: Amount::from_sat(1234), script_pubkey: foreign(30 + i as u8) });
+            }
+            pouts.push(TxOut { value: Amount::from_sat(v), script_pubkey: spk.clone() });
+            let prev_tx = Transaction {
+                version: Version::TWO,
+                lock_time: LockTime::ZERO,
+                input: vec![TxIn { previous_output: OutPoint { txid: Txid::from_byte_array(ptxid), vout: 0 }, script_sig: ScriptBuf::new(), sequence: Sequence::MAX, witness: Witness::new() }],
+                output: pouts,
+            };
+            let is_ours = !matches!(g.kind, WInKind::ForeignP2wpkh | WInKind::ForeignP2pkh);
+            let utxo = if is_ours {
+                Some(Utxo {
+                    txid: prev_tx.compute_txid(),
+                    outnum: vout,
+                    amount: v,
+                    keyindex: if close.is_some() { 0 } else { keyindex },
+                    is_p2sh: matches!(g.kind, WInKind::WalletP2sh),
+                    script: Octets(spk.as_bytes().to_vec()),
+                    close_info: close,
+                    is_in_coinbase: false,
+                })
+            } else {
+                None
+            };
+            sum_in += v as u128;
+            ins.push(InFact { prev_tx, vout, utxo, redeem_script, expect, truly_segwit, sequence });
+        }
+        let txins: Vec<TxIn> = ins.iter().map(|f| TxIn { previous_output: OutPoint { txid: f.prev_tx.compute_txid(), vout: f.vout }, script_sig: ScriptBuf::new(), sequence: f.sequence, witness: Witness::new() }).collect();
+        let prev_outs: Vec<TxOut> = ins.iter().map(|f| f.prev_tx.output[f.vout as usize].clone()).collect();
+
+        // --- outputs (labels as at API level) -------------------------------------------------
+        let mut chan_idx: Vec<Option<usize>> = vec![None; 3];
+        let chan_values = [1_000_000u64, 250_000, 4_000_000];
+        for c in 0..3u8 {
+            if case.outputs.iter().any(|o| matches!(o.kind, OutKind::Channel { c: cc, .. } if cc % 3 == c)) {
+                let g = &case.chans[c as usize];
+                let mut spec = ChanSpec::basic(100 + c as u64);
+                spec.outbound = g.outbound;
+                spec.value_sat = chan_values[g.value_sel as usize % 3];
+                spec.push_msat = if g.push { 5_000_000 } else { 0 };
+                if let Out::Ok(i) = pw.new_stub(&spec) {
+                    chan_idx[c as usize] = Some(i);
+                }
+            }
+        }
+        struct OutFact {
+            beneficial_value: Option<u128>,
+            unknown: bool,
+            is_channel: bool,
+            class: u8,
+        }
+        /// what the PSBT output says about the key
+        enum Deriv {
+            None,
+            Bip32(PublicKey, DerivationPath),
+            Tap(PublicKey, DerivationPath),
+        }
+        let mut outs: Vec<TxOut> = vec![];
+        let mut derivs: Vec<Deriv> = vec![];
+        let mut facts: Vec<OutFact> = vec![];
+        let mut fixed_sum: u128 = 0;
+        let mut chan_out_of: Vec<(usize, usize, u8, i8, bool)> = vec![];
+        let mut used_chan = [false; 3];
+        for (oi, g) in case.outputs.iter().enumerate() {
+            let withheld = wg.withhold_path & (1 << oi) != 0;
+            if let OutKind::Channel { c, value_delta, script_ok } = &g.kind {
+                let c = (*c % 3) as usize;
+                if used_chan[c] || chan_idx[c].is_none() {
+                    outs.push(TxOut { value: Amount::ZERO, script_pubkey: foreign(oi as u8) });
+                    derivs.push(Deriv::None);
+                    facts.push(OutFact { beneficial_value: None, unknown: true, is_channel: false, class: 9 });
+                    continue;
+                }
+                used_chan[c] = true;
+                let ci = chan_idx[c].unwrap();
+                let ch = &pw.chans[ci];
+                let v = (ch.setup.channel_value_sat as i64 + *value_delta as i64) as u64;
+                let spk = if *script_ok { ch.funding_redeemscript().to_p2wsh() } else { ScriptBuf::new_p2wsh(&bitcoin::WScriptHash::hash(&[0xee, oi as u8])) };
+                outs.push(TxOut { value: Amount::from_sat(v), script_pubkey: spk });
+                derivs.push(Deriv::None);
+                fixed_sum += v as u128;
+                chan_out_of.push((oi, ci, c as u8, *value_delta, *script_ok));
+                facts.push(OutFact { beneficial_value: None, unknown: false, is_channel: true, class: 8 });
+                continue;
+            }
+            let w = 60 + oi as u32;
+            let xk = |idx: u32| axpub.derive_pub(&secp, &path_of(idx)).unwrap().public_key;
+            // (script, derivation a truthful node would attach, beneficial with it, unknown with it,
+            //  beneficial without it, class)
+            let (spk, deriv, ben, unk, ben_withheld, class): (ScriptBuf, Deriv, bool, bool, bool, u8) = match &g.kind {
+                OutKind::WalletP2wpkh => (wallet_scripts(w)[0].clone(), Deriv::Bip32(wpk(w), path_of(w)), true, false, false, 0),
+                OutKind::WalletP2sh => (wallet_scripts(w)[1].clone(), Deriv::Bip32(wpk(w), path_of(w)), true, false, false, 1),
+                OutKind::WalletP2tr => (wallet_scripts(w)[2].clone(), Deriv::Tap(wpk(w), path_of(w)), true, false, false, 2),
+                OutKind::WalletWrongPath => (wallet_scripts(w)[0].clone(), Deriv::Bip32(wpk(w + 1), path_of(w + 1)), false, false, false, 3),
+                OutKind::Allowlisted => (allow_addr.script_pubkey(), Deriv::None, true, false, true, 4),
+                OutKind::XpubDerived => (Address::p2wpkh(&CompressedPublicKey(xk(7 + oi as u32)), net).script_pubkey(), Deriv::Bip32(xk(7 + oi as u32), path_of(7 + oi as u32)), true, false, false, 5),
+                OutKind::XpubWrongPath => (Address::p2wpkh(&CompressedPublicKey(xk(7 + oi as u32)), net).script_pubkey(), Deriv::Bip32(xk(8 + oi as u32), path_of(8 + oi as u32)), false, false, false, 6),
+                OutKind::Unknown => (foreign(oi as u8), Deriv::None, false, true, false, 7),
+                OutKind::UnknownWithPath => (foreign(oi as u8), Deriv::Bip32(wpk(3), path_of(3)), false, false, false, 10),
+                OutKind::WalletAndAllowlisted => (wallet_scripts(90 + oi as u32)[0].clone(), Deriv::Bip32(wpk(90 + oi as u32), path_of(90 + oi as u32)), true, false, true, 11),
+                OutKind::Channel { .. } => unreachable!(),
+            };
+            let has_deriv = !matches!(deriv, Deriv::None);
+            let (deriv, beneficial, unknown, class) = if withheld && has_deriv {
+                // no path: beneficial only by the allowlist, otherwise an unknown destination
+                (Deriv::None, ben_withheld, !ben_withheld, 20 + class)
+            } else {
+                (deriv, ben, unk, class)
+            };
+            outs.push(TxOut { value: Amount::ZERO, script_pubkey: spk });
+            derivs.push(deriv);
+            facts.push(OutFact { beneficial_value: if beneficial { Some(0) } else { None }, unknown, is_channel: false, class });
+        }
+        let mk = |outs: &Vec<TxOut>| Transaction { version: Version(case.version as i32), lock_time: LockTime::ZERO, input: txins.clone(), output: outs.clone() };
+        let weight: u128 = mk(&outs).weight().to_wu() as u128 + weight_extra;
+        let fee: Option<u128> = match &case.fee {
+            FeeSel::Rate(r) => Some(*r as u128 * weight / 1000),
+            FeeSel::MaxRate(d) => Some(((case.max_feerate as i128 + *d as i128).max(0) as u128) * weight / 1000),
+            FeeSel::Pow32 { k, r } => Some((((*k as u128) << 32) + *r as u128) * weight / 1000 + 1),
+            FeeSel::Negative(_) => None,
+            FeeSel::Zero => Some(0),
+        };
+        let distributable: u128 = match (&case.fee, fee) {
+            (_, Some(f)) => match sum_in.checked_sub(fixed_sum).and_then(|x| x.checked_sub(f)) {
+                Some(d) => d,
+                None => {
+                    st.class("wire:inputs-too-small-for-fixed-outputs");
+                    return Ok(());
+                }
+            },
+            (FeeSel::Negative(d), None) => sum_in.saturating_sub(fixed_sum) + *d as u128,
+            _ => unreachable!(),
+        };
+        let var_idx: Vec<usize> = (0..outs.len()).filter(|i| !facts[*i].is_channel).collect();
+        let wsum: u128 = var_idx.iter().map(|i| case.outputs[*i].weight as u128).sum();
+        let mut left = distributable;
+        for (k, i) in var_idx.iter().enumerate() {
+            let share = if k + 1 == var_idx.len() { left } else { distributable * case.outputs[*i].weight as u128 / wsum.max(1) };
+            let share = share.min(left).min(u64::MAX as u128);
+            left -= share;
+            outs[*i].value = Amount::from_sat(share as u64);
+            if facts[*i].beneficial_value.is_some() {
+                facts[*i].beneficial_value = Some(share);
+            }
+        }
+        let tx = mk(&outs);
+        let txid = tx.compute_txid();
+        // the funded channels: SetupChannel with the real outpoint, then (or not) the
+        // counter-signed initial holder commitment
+        let mut n_chan_out = 0usize;
+        for (oi, ci, c, delta, script_ok) in chan_out_of.iter() {
+            pw.chans[*ci].setup.funding_outpoint = OutPoint { txid, vout: *oi as u32 };
+            if !pw.setup_chan(*ci).is_ok() {
+                st.class("wire:channel-setup-refused");
+                return Ok(());
+            }
+            let g = &case.chans[*c as usize];
+            if g.validated {
+                let ch = &pw.chans[*ci];
+                let c0 = finish_content(false, ch.setup.channel_value_sat, 1000, ch.setup.push_value_msat / 1000, vec![], vec![]);
+                let signed = ch.cp_sign_holder(&secp, 0, &c0, SigKind::Valid);
+                let vm = validate_msg(ch, &secp, 0, &c0, &signed, false);
+                if !pw.request(To::Chan(*ci), vm).is_ok() {
+                    // the label would be uncertain
+                    st.class("wire:initial-commitment-refused");
+                    return Ok(());
+                }
+            }
+            n_chan_out += 1;
+            let fully = *delta == 0 && *script_ok && g.outbound && !g.push && g.validated;
+            if fully {
+                facts[*oi].beneficial_value = Some(pw.chans[*ci].setup.channel_value_sat as u128);
+            }
+        }
+
+        // --- the request ---------------------------------------------------------------------
+        let mut psbt = Psbt::from_unsigned_tx(tx.clone()).expect("unsigned tx");
+        for (i, f) in ins.iter().enumerate() {
+            // (somebody else's legacy input described by witness_utxo alone is sloppy but is what the
+            // handler asks for: it reads witness_utxo of every input)
+            let data = wg.inputs[i].data.clone();
+            if data != UtxoData::NonWitnessOnly {
+                psbt.inputs[i].witness_utxo = Some(prev_outs[i].clone());
+            }
+            if data != UtxoData::WitnessOnly {
+                psbt.inputs[i].non_witness_utxo = Some(f.prev_tx.clone());
+            }
+            psbt.inputs[i].redeem_script = f.redeem_script.clone();
+            st.class(format!("wire:in:{}:{:?}", in_kind_name(&wg.inputs[i].kind), data));
+        }
+        for (oi, d) in derivs.iter().enumerate() {
+            match d {
+                Deriv::None => {}
+                Deriv::Bip32(pk, path) => {
+                    let ks: KeySource = (fp, path.clone());
+                    psbt.outputs[oi].bip32_derivation.insert(*pk, ks);
+                }
+                Deriv::Tap(pk, path) => {
+                    let x: XOnlyPublicKey = pk.x_only_public_key().0;
+                    psbt.outputs[oi].tap_internal_key = Some(x);
+                    psbt.outputs[oi].tap_key_origins.insert(x, (vec![], (fp, path.clone())));
+                }
+            }
+        }
+        let utxos: Vec<Utxo> = ins.iter_mut().filter_map(|f| f.utxo.take()).collect();
+        let msg = Message::SignWithdrawal(msgs::SignWithdrawal { utxos: Array(utxos), psbt: WithSize(StreamedPSBT::new(psbt)) });
+        let rep = pw.request(To::Root, msg);
+        let err = rep.err_msg();
+        let mut asked_sets: Vec<Vec<usize>> = asked.lock().unwrap().clone();
+        let mut classes: Vec<u8> = facts.iter().map(|f| f.class).collect();
+        classes.sort();
+        classes.dedup();
+        let mut in_shape: Vec<String> = wg.inputs.iter().map(|g| format!("{}:{:?}", in_kind_name(&g.kind), g.data)).collect();
+        in_shape.sort();
+        let fee_tag = match &case.fee {
+            FeeSel::Rate(_) => "rate".to_string(),
+            FeeSel::MaxRate(d) => format!("max{:+}", d),
+            FeeSel::Pow32 { .. } => "pow32".into(),
+            FeeSel::Negative(_) => "negative".into(),
+            FeeSel::Zero => "zero".into(),
+        };
+        let reason = if rep.is_err() { refusal_reason(&err) } else { String::new() };
+        st.sample = Some(json!({"case": case, "sum_in": sum_in.to_string(), "fee": fee.map(|f| f.to_string()), "weight": weight.to_string(), "result": rep.tag(), "err": err, "asked": asked_sets}));
+        // whenever the approver was consulted: about exactly the outputs labelled unknown
+        if let Some(got) = asked_sets.pop() {
+            let mut got = got;
+            got.sort();
+            let exp: Vec<usize> = facts.iter().enumerate().filter(|(_, f)| f.unknown).map(|(i, _)| i).collect();
+            if got != exp {
+                return ctx.report(st, Violation::new(
+                    "C08:wire:unknown-destinations-set-wrong",
+                    format!("the approver was asked about outputs {:?}, labelled unknown {:?}; protocol v{} case={:?}", got, exp, pver, case),
+                ));
+            }
+        }
+        let rep = match rep {
+            Out::Ok(r) => r,
+            Out::Err(_) => {
+                st.class(format!("wire:refused:{}", reason));
+                let any_unknown = facts.iter().any(|f| f.unknown) && reason == "unapproved-destination";
+                let unknown_path = reason == "policy-onchain-no-unknown-outputs";
+                let fee_refusal = reason == "policy-onchain-fee-range";
+                if any_unknown || unknown_path {
+                    st.nontrivial_shape(("wire-unknown", classes, n_chan_out, in_shape));
+                } else if fee_refusal {
+                    st.nontrivial_shape(("wire-fee", classes, n_chan_out, fee_tag, in_shape));
+                }
+                return Ok(());
+            }
+            Out::Panic(_) => {
+                st.class("wire:panic");
+                return Ok(());
+            }
+        };
+        let Some(reply) = rep.as_any().downcast_ref::<msgs::SignWithdrawalReply>() else {
+            return ctx.report(st, Violation::new("C08:wire:unexpected-reply", format!("SignWithdrawal answered with message type {}", rep.as_vec().iter().take(2).fold(0u32, |a, b| a * 256 + *b as u32))));
+        };
+        // --- accepted: the reference predicate of the API group ---------------------------------
+        let mut bad: Vec<&'static str> = vec![];
+        if case.version != 2 {
+            bad.push("version");
+        }
+        if tx.base_size() > 32 * 1024 {
+            bad.push("size");
+        }
+        for f in facts.iter() {
+            if f.beneficial_value.is_none() {
+                bad.push(if f.is_channel { "invalid-channel-funding-output-accepted" } else if f.unknown { "unknown-output-accepted" } else { "non-beneficial-output-accepted" });
+            }
+        }
+        if n_chan_out > 0 && !ins.iter().all(|f| f.truly_segwit) {
+            bad.push("non-segwit-input-with-channel-funding");
+        }
+        let beneficial: u128 = facts.iter().filter_map(|f| f.beneficial_value).sum();
+        if beneficial > sum_in {
+            bad.push("beneficial-exceeds-inputs");
+        } else {
+            let nb = sum_in - beneficial;
+            if case.max_feerate != u32::MAX && nb * 1000 / weight > case.max_feerate as u128 {
+                bad.push("fee-rate-above-maximum");
+            }
+            if let Some(l) = case.fee_velocity_sat {
+                if nb * 1000 > l as u128 * 1000 {
+                    bad.push("fee-velocity-exceeded");
+                }
+            }
+        }
+        if let Some(b) = bad.first() {
+            return ctx.report(st, Violation::new(
+                format!("C08:wire:accepted:{}", b),
+                format!("SignWithdrawal (protocol v{}) signed although {:?}; sum_in={} beneficial={} weight={} case={:?}", pver, bad, sum_in, beneficial, weight, case),
+            ));
+        }
+        // the signatures: our inputs are signed by the right keys over this transaction
+        let rp = &reply.psbt.0.inner;
+        if rp.unsigned_tx != tx || rp.inputs.len() != ins.len() {
+            return ctx.report(st, Violation::new("C08:wire:reply-transaction-differs", format!("the returned PSBT is about another transaction; case={:?}", case)));
+        }
+        for (i, f) in ins.iter().enumerate() {
+            if let Err(what) = verify_wire_input(&secp, &tx, &prev_outs, i, &f.expect, &rp.inputs[i], net) {
+                return ctx.report(st, Violation::new(
+                    format!("C08:wire:witness:{}:{}", in_kind_name(&wg.inputs[i].kind), what),
+                    format!("input {} of the signed withdrawal (protocol v{}): {}; case={:?}", i, pver, what, case),
+                ));
+            }
+        }
+        st.class("wire:accepted");
+        if n_chan_out >= 1 {
+            st.class("wire:accepted_with_channel_funding");
+        }
+        if facts.len() >= 2 {
+            st.nontrivial_shape(("wire-ok", classes, n_chan_out, in_shape));
+        }
+        Ok(())
+    }
+}
+
+fn in_kind_name(k: &WInKind) -> &'static str {
+    match k {
+        WInKind::WalletP2wpkh => "p2wpkh",
+        WInKind::WalletP2sh => "p2sh-p2wpkh",
+        WInKind::WalletP2tr => "p2tr",
+        WInKind::CloseToRemote { anchors: false } => "close-to-remote",
+        WInKind::CloseToRemote { anchors: true } => "close-to-remote-anchors",
+        WInKind::CloseDelayed { .. } => "close-delayed",
+        WInKind::ForeignP2wpkh => "foreign-p2wpkh",
+        WInKind::ForeignP2pkh => "foreign-p2pkh",
+    }
 }
 
 impl Prop for C08 {
@@ -214,17 +905,20 @@ impl Prop for C08 {
             prop::bool::weighted(0.3),
             prop::bool::weighted(0.03),
             prop_oneof![9 => Just(None), 1 => (1u8..4, 24u8..32).prop_map(Some)],
-            (prop_oneof![3 => Just(0u8), 1 => Just(1u8), 1 => Just(2u8)], prop_oneof![5 => Just(0u8), 2 => 1u8..7]),
+            (prop_oneof![3 => Just(0u8), 1 => Just(1u8), 1 => Just(2u8)], prop_oneof![5 => Just(0u8), 2 => 1u8..7], prop_oneof![7 => Just(None), 2 => wire_strat().prop_map(Some)]),
         )
-            .prop_map(|(version, inputs, outputs, chans, fee, fee_velocity_sat, max_feerate, repeats, via_approver, big_tx, storm, (restart_before, allow_edit))| {
+            .prop_map(|(version, inputs, outputs, chans, fee, fee_velocity_sat, max_feerate, repeats, via_approver, big_tx, storm, (restart_before, allow_edit, wire))| {
                 // a storm is only interesting with a finite fee velocity limit
                 let fee_velocity_sat = if storm.is_some() { fee_velocity_sat.or(Some(2500)) } else { fee_velocity_sat };
-                Case { version, inputs, outputs, chans, fee, fee_velocity_sat, max_feerate, repeats, via_approver, big_tx, storm, restart_before, allow_edit }
+                Case { version, inputs, outputs, chans, fee, fee_velocity_sat, max_feerate, repeats, via_approver, big_tx, storm, restart_before, allow_edit, wire }
             })
             .boxed()
     }
 
     fn run(&self, case: &Case, st: &mut CaseStats, ctx: &Ctx) -> Result<(), Violation> {
+        if let Some(wg) = &case.wire {
+            return self.run_wire(case, wg, st, ctx);
+        }
         let net = Network::Testnet;
         let mut cfg = WorldCfg::default_testnet();
         cfg.policy.max_feerate_per_kw = case.max_feerate;
